@@ -10,7 +10,7 @@ def run(cx):
     cx.rule("C02.R2", "tail must-use: at every caller of ConnectionHandler::handle the returned tail is consumed (not only dropped) and, where the caller re-enters handle(), flows into the reader of the next call")
     cx.rule("C02.R3", "frame delimiter agreement: every protocol read_until uses NUL and every serialise-then-write site appends exactly \"\\0\"")
     h, n = hc.check_tails(cx, "C02.R1", lambda after_dispatch: True)
-    cx.floor("C02.R1", "Ok returns of handle()", len(h.ok_assigns), 4)
+    cx.floor("C02.R1", "Ok returns of handle()", len(h.ok_assigns), 2)
     r1_upgrade_iface(cx, h)
     r1_pop(cx, h)
     r1_fresh(cx, h)
